@@ -181,6 +181,102 @@ Definition chk_op (t : list ev) (e : ev) : bool :=
   end.
 Definition chk_ops (t : list ev) : bool := forallb (chk_op t) t.
 
+(** ** the rules for a connection that is going down
+    "While the connection stays open" every accepted init gets its ack, every ping its pong, every
+    started operation its frames.  Once the server has begun closing (or its application has closed
+    the connection while a handler call was in flight) the read loop still dispatches the client
+    frames that were already on their way — their resolver calls, Stop() calls and the clean-up are
+    judged exactly as before — but what it sends for them may no longer leave the queue.  For the
+    part of a trace from position [k] on (the events of the labels performed while the connection
+    was going down) R3 / R4 / R5 therefore demand only a *prefix* of the answers: an init accepted or
+    a ping received there may stay unanswered, an operation started there owns a prefix of its
+    frames.  Everything before position k is judged as before. *)
+Fixpoint prefixb (a b : list sframe) : bool :=
+  match a, b with
+  | [], _ => true
+  | x :: a', y :: b' => sframe_eqb x y && prefixb a' b'
+  | _ :: _, [] => false
+  end.
+Definition soften (c : tri) : tri := match c with Must => May | x => x end.
+
+Fixpoint chk_acks_slack (slack pending : nat) (t : list ev) : bool :=
+  match t with
+  | [] => Nat.leb pending slack
+  | VInit true :: t' => chk_acks_slack slack (S pending) t'
+  | VSend SAck _ :: t' => match pending with 0 => false | S k => chk_acks_slack slack k t' end
+  | _ :: t' => chk_acks_slack slack pending t'
+  end.
+Fixpoint chk_pongs_slack (p : proto) (slack pending : nat) (t : list ev) : bool :=
+  match t with
+  | [] => Nat.leb pending slack
+  | e :: t' =>
+      if is_ping p e then chk_pongs_slack p slack (S pending) t'
+      else if is_pong e then match pending with 0 => false | S k => chk_pongs_slack p slack k t' end
+      else chk_pongs_slack p slack pending t'
+  end.
+
+(** R2: from position k on, an init the application accepted counts like its ack (which may be lost) *)
+Fixpoint chk_no_op_before_ack_from (k : nat) (t : list ev) : bool :=
+  match t with
+  | [] => true
+  | VSend SAck _ :: _ => true
+  | VInit true :: t' => if Nat.eqb k 0 then true else chk_no_op_before_ack_from (Nat.pred k) t'
+  | e :: t' => negb (is_op_event e) && chk_no_op_before_ack_from (Nat.pred k) t'
+  end.
+
+Definition chk_op_soft (t : list ev) (e : ev) : bool :=
+  match e with
+  | VStart n id d =>
+      Nat.eqb (count (is_start n) t) 1 &&
+      match d with
+      | DQuery | DMutation =>
+          Nat.eqb (count (is_exec n) t) 1 && Nat.eqb (count (is_subscribe n) t) 0 &&
+          Nat.eqb (count (is_subfail n) t) 0 &&
+          (* executed exactly once; its context may already be cancelled: then the result carries errors only *)
+          (prefixb (owned n t) [SData id (CRes n); SComplete id] || prefixb (owned n t) [SData id CErr; SComplete id])
+      | DInvalid =>
+          Nat.eqb (count (is_exec n) t) 0 && Nat.eqb (count (is_subscribe n) t) 0 &&
+          Nat.eqb (count (is_subfail n) t) 0 && prefixb (owned n t) [SData id CErr; SComplete id]
+      | DSubFail =>
+          Nat.eqb (count (is_exec n) t) 0 && Nat.eqb (count (is_subscribe n) t) 0 &&
+          match count (is_subfail n) t with
+          | 0 => match owned n t with [] => true | _ => false end
+          | 1 => prefixb (owned n t) [SData id CErr; SComplete id]
+          | _ => false
+          end
+      | DSub =>
+          Nat.eqb (count (is_exec n) t) 0 && Nat.eqb (count (is_subfail n) t) 0 &&
+          match count (is_subscribe n) t with
+          | 0 => match owned n t with [] => true | _ => false end
+          | 1 => chk_sub_frames id n 0 (soften (completion n t)) (owned n t)
+          | _ => false
+          end
+      end
+  | _ => chk_op t e
+  end.
+(** a subscription started before position k whose Stop() / source end happened only after it: its complete
+    may have been lost as well *)
+Definition completion_from (k n : nat) (t : list ev) : tri :=
+  match completion n t with
+  | Must => if stopped_or_ended n (firstn k t) then Must else May
+  | c => c
+  end.
+Definition chk_op_mid (k : nat) (t : list ev) (e : ev) : bool :=
+  match e with
+  | VStart n id DSub =>
+      Nat.eqb (count (is_start n) t) 1 &&
+      (Nat.eqb (count (is_exec n) t) 0 && Nat.eqb (count (is_subfail n) t) 0 &&
+       match count (is_subscribe n) t with
+       | 0 => match owned n t with [] => true | _ => false end
+       | 1 => chk_sub_frames id n 0 (completion_from k n t) (owned n t)
+       | _ => false
+       end)
+  | _ => chk_op t e
+  end.
+(** events before position k as before (but see [completion_from]), the others softly *)
+Definition chk_ops_from (k : nat) (t : list ev) : bool :=
+  forallb (chk_op_mid k t) (firstn k t) && forallb (chk_op_soft t) (skipn k t).
+
 (** ** R6 *)
 Definition served (n : nat) (t : list ev) : bool :=
   existsb (fun e => is_subscribe n e || is_subfail n e) t.
@@ -245,6 +341,20 @@ Definition spec_verdict (p : proto) (t : list ev) : option string :=
   else if negb (chk_acks 0 t) then Some "ack-without-init"
   else if negb (chk_pongs p 0 t) then Some "ping-pong"
   else if negb (chk_ops t) then Some "operation-lifecycle"
+  else if negb (chk_ignored true t) then Some "subscription-start-dropped"
+  else if negb (chk_ignored false t) then Some "stale-id-after-source-end"
+  else if negb (chk_stops t) then Some "stop-not-exactly-once"
+  else if negb (chk_dereg t) then Some "not-deregistered"
+  else None.
+
+(** the same for a connection observed while it was going down from trace position k on *)
+Definition spec_verdict_from (k : nat) (p : proto) (t : list ev) : option string :=
+  let late := skipn k t in
+  if negb (chk_ack_first p (frames t)) then Some "ack-not-first"
+  else if negb (chk_no_op_before_ack_from k t) then Some "operation-before-init"
+  else if negb (chk_acks_slack (count (fun e => match e with VInit true => true | _ => false end) late) 0 t) then Some "ack-without-init"
+  else if negb (chk_pongs_slack p (count (is_ping p) late) 0 t) then Some "ping-pong"
+  else if negb (chk_ops_from k t) then Some "operation-lifecycle"
   else if negb (chk_ignored true t) then Some "subscription-start-dropped"
   else if negb (chk_ignored false t) then Some "stale-id-after-source-end"
   else if negb (chk_stops t) then Some "stop-not-exactly-once"
